@@ -24,17 +24,21 @@ def history(writer, blocked, nrec, fins, maxlen, readable=True, optimize=0):
         m = M(optimize=optimize).mciipm
         f = RopeFile(readable=readable)
         ns = [sym_int('len%d' % i, 1, maxlen) for i in range(nrec)]
-        rp = {'kind': 'history', 'args': {'writer': writer, 'blocked': blocked, 'lengths': [ev(n) for n in ns], 'fins': list(fins), 'readable': readable}}
-        if optimize:
-            rp['mode'] = '-O'
+        recs = [Source('rec%d' % i, 'b', n).rope() for i, n in enumerate(ns)] if writer == 'vbs' else None
+        vals = [Source('pan%d' % i, 't', n).rope() for i, n in enumerate(ns)] if writer != 'vbs' else None
+
+        def rp():
+            a = {'kind': 'history', 'args': {'writer': writer, 'blocked': blocked, 'lengths': [ev(n) for n in ns], 'fins': list(fins), 'readable': readable,
+                                            'content': [concretize(x, ev) for x in (recs if writer == 'vbs' else vals)]}}
+            if optimize:
+                a['mode'] = '-O'
+            return a
         core.set_fallback(rp, 'C11/concretised')
         if writer == 'vbs':
             w = m.VbsWriter(f, blocked=blocked)
-            recs = [Source('rec%d' % i, 'b', n).rope() for i, n in enumerate(ns)]
             items = recs
         else:
             w = m.IpmWriter(f, blocked=blocked)
-            vals = [Source('pan%d' % i, 't', n).rope() for i, n in enumerate(ns)]
             items = [{'MTI': '1144', 'DE2': v} for v in vals]
         w.__enter__()
         for it in items:
@@ -80,7 +84,7 @@ def history(writer, blocked, nrec, fins, maxlen, readable=True, optimize=0):
                 req_eq(got[i], recs[i], 'record %d differs' % (i + 1), key='C11/readback', replay=rp)
             else:
                 require(got[i].get('MTI') == '1144', 'MTI differs', key='C11/readback', replay=rp)
-        return {'sample': {'lengths': [ev(n) for n in ns], 'fins': list(fins), 'size': ev(rlen(final))}, 'replay': rp}
+        return {'sample': {'lengths': [ev(n) for n in ns], 'fins': list(fins), 'size': ev(rlen(final))}, 'replay': rp()}
     return h
 
 
